@@ -135,6 +135,9 @@ M_C02(pre, a, obs, post) ==
   \* the name by which that recipient addresses the topic: the peer in p2p (abstracted to the topic), the chnXXX spelling for readers
   \cup If(\A d \in obs.data : d.topic = t /\ d.aschan = AttChan(c, d.s), "TopicNamedAsTheRecipientAddressesIt")
   \cup If(\A x \in obs.pushChan : IF c.loaded /\ c.ischan THEN x.channel = t /\ x.ischn ELSE x.channel = "", "ChannelReadersReachedThroughBroadcastAddressOnly")
+  \* ... and they ARE reached: every accepted message of a channel-enabled topic is pushed to the channel's broadcast address,
+  \* whether or not any full subscriber is addressed directly
+  \cup If(c.loaded /\ c.ischan => \E x \in obs.pushChan : x.channel = t /\ x.ischn, "ChannelAddressedOnEveryPublish")
   \cup If(obs.push = {pushExpect} \/ (pushExpect = {} /\ obs.push \subseteq {{}}), "PushToReadersWithPresence")
 
 \* ------------------------------------------------------------------ C07: who may change permissions
@@ -170,6 +173,13 @@ M_C07(pre, a, obs, post) ==
       \cup If(newRow /\ u = actor /\ gPre.st = "none" /\ Live(pre, t) /\ u \notin {SessUser[x] : x \in RootSessions}
               => gPost.given = pre.topics[t].auth, "FirstSubscriptionGetsDefaultGrant")
       : uu \in Users }
+    \* at an accepted transfer the ownership bit is cleared from the previous owner, in the granted as well as in the requested mode
+    \cup (IF actor \in Users /\ post.subs[t][actor].st = "live" /\ "O" \in Eff(post.subs[t][actor])
+             /\ ~(pre.subs[t][actor].st = "live" /\ "O" \in Eff(pre.subs[t][actor]))
+          THEN If(\A o \in Users \ {actor} : (pre.subs[t][o].st = "live" /\ "O" \in Eff(pre.subs[t][o]) /\ post.subs[t][o].st = "live")
+                                                  => "O" \notin M(post.subs[t][o].given) /\ "O" \notin M(post.subs[t][o].want),
+                  "TransferClearsPreviousOwner")
+          ELSE {})
     \cup If(Live(post, t) => Cardinality({u \in Users : post.subs[t][u].st = "live"}) <= MaxSubs, "SubscriberLimit")
     \cup If(post.cache[t].loaded => \A x \in AttOf(post.cache[t]) : x.chan \/ "J" \in M(post.cache[t].per[x.u].given), "NoAttachWithoutJoinGrant")
     \* channel readers: the grant is fixed (JRP), the request stays within it and keeps J and R
